@@ -8,6 +8,9 @@ behaviour and every rule must stay silent on the result.
   negate-if : every two-way switch on a bool tests the negated value with the targets exchanged
   split-edges: an empty block is put on every switch edge and behind every call
   extra-copies: every call argument and switch subject that is a plain local goes through a fresh temporary first
+  swap-minmax: arguments of every min / max call exchanged
+  from-to-cast: every lossless integer `T::from(x)` written as `x as T`
+  isnone-to-match: `x.is_none()` / `is_some()` / `is_ok()` / `is_err()` tested right away becomes a test of the discriminant
   rename-locals: every named local / parameter gets another name
   anon-consts: named scalar constants become literals (`ClusterId::ROOT_DIR` as its value, `CMD17` as 0x11)
 usage: tools/metamorphic.py [kind ...]   (default: all, one after the other)"""
@@ -67,6 +70,64 @@ def transform(raw, kind):
                         holder[key] = {"k": "move", "p": {"l": nl, "proj": []}}
                         n += 1
         return n
+    if kind == "swap-minmax":
+        for body in raw["bodies"]:
+            for blk in body["blocks"]:
+                t = blk["term"]
+                if t["k"] == "Call" and (t.get("callee") or "").split("::")[-1] in ("min", "max") and len(t["args"]) == 2 and ("cmp::" in (t.get("callee") or "")):
+                    t["args"][0], t["args"][1] = t["args"][1], t["args"][0]
+                    n += 1
+        return n
+    if kind == "from-to-cast":
+        W = {"u8": 8, "u16": 16, "u32": 32, "u64": 64, "usize": 64}
+        for body in raw["bodies"]:
+            for blk in body["blocks"]:
+                t = blk["term"]
+                if t["k"] == "Call" and (t.get("callee") or "") == "core::convert::From::from" and len(t["args"]) == 1 and t.get("target") is not None and not t["dest"]["proj"]:
+                    a = t["args"][0]
+                    dty = body["locals"][t["dest"]["l"]]["ty"]
+                    sty = body["locals"][a["p"]["l"]]["ty"] if a.get("k") in ("copy", "move") and not a["p"]["proj"] else a.get("ty")
+                    if dty in W and sty in W and W[sty] < W[dty]:
+                        blk["stmts"].append({"k": "Assign", "p": t["dest"], "rv": {"k": "Cast", "kind": "IntToInt", "ty": dty, "src": sty, "op": a}, "sp": t["sp"]})
+                        blk["term"] = {"k": "Goto", "target": t["target"], "sp": t["sp"]}
+                        n += 1
+        return n
+    if kind == "isnone-to-match":
+        VAR = {"is_none": ("core::option::Option", ["None", "Some"], 0), "is_some": ("core::option::Option", ["None", "Some"], 1),
+               "is_ok": ("core::result::Result", ["Ok", "Err"], 0), "is_err": ("core::result::Result", ["Ok", "Err"], 1)}
+        for body in raw["bodies"]:
+            B = body["blocks"]
+            for blk in B:
+                t = blk["term"]
+                if t["k"] != "Call" or t.get("target") is None or t["dest"]["proj"] or len(t["args"]) != 1:
+                    continue
+                nm = (t.get("callee") or "").split("::")[-1]
+                if nm not in VAR or not (t.get("callee") or "").startswith(("core::option::Option", "core::result::Result")):
+                    continue
+                a = t["args"][0]
+                if a.get("k") not in ("copy", "move") or a["p"]["proj"]:
+                    continue
+                refs = [s_ for s_ in blk["stmts"] if s_["k"] == "Assign" and s_["p"] == a["p"] and s_["rv"]["k"] == "Ref"]
+                nb = B[t["target"]]
+                sw = nb["term"]
+                d = t["dest"]["l"]
+                if len(refs) != 1 or sw["k"] != "SwitchInt" or sw.get("discr_ty") != "bool" or sw["discr"].get("k") not in ("copy", "move") or sw["discr"]["p"] != {"l": d, "proj": []} or len(sw["targets"]) != 1 or sw["targets"][0][0] != 0:
+                    continue
+                if any(s_["k"] == "Assign" for s_ in nb["stmts"]):
+                    continue
+                # uses of d elsewhere?
+                import json as _j
+                if _j.dumps(body["blocks"]).count('"l": %d,' % d) > 3:
+                    continue
+                adt, names, want = VAR[nm]
+                nl = len(body["locals"])
+                body["locals"].append({"ty": "isize", "tag": "isize", "name": None})
+                blk["stmts"].append({"k": "Assign", "p": {"l": nl, "proj": []}, "rv": {"k": "Discriminant", "p": refs[0]["rv"]["p"], "adt": adt, "variants": names}, "sp": t["sp"]})
+                blk["term"] = {"k": "Goto", "target": t["target"], "sp": t["sp"]}
+                false_t, true_t = sw["targets"][0][1], sw["otherwise"]
+                nb["term"] = {"k": "SwitchInt", "discr": {"k": "move", "p": {"l": nl, "proj": []}}, "discr_ty": "isize", "targets": [[want, true_t]], "otherwise": false_t, "sp": sw["sp"]}
+                n += 1
+        return n
     if kind == "rename-locals":
         for body in raw["bodies"]:
             for i, l in enumerate(body["locals"]):
@@ -122,7 +183,7 @@ def transform(raw, kind):
 
 
 def main():
-    kinds = sys.argv[1:] or ["swap-eq", "mirror-cmp", "swap-comm", "rev-arms", "negate-if", "split-edges", "extra-copies", "rename-locals", "anon-consts"]
+    kinds = sys.argv[1:] or ["swap-eq", "mirror-cmp", "swap-comm", "rev-arms", "negate-if", "split-edges", "extra-copies", "swap-minmax", "from-to-cast", "isnone-to-match", "rename-locals", "anon-consts"]
     props = [json.loads(l)["id"] for l in open(os.path.join(V, "properties.jsonl"))]
     bad = 0
     for kind in kinds:
